@@ -64,18 +64,15 @@ theorem release_iff_connect_true (o : Opts) (env : List Ans) (ts : List Bool) (r
   of r and it returned a false value;
 * otherwise the (true) value on-release of role r returned - `True` for the default on-release;
 * False: exactly for IOError, UnsupportedTargetError, KeyboardInterrupt.
-PARTIAL only because of the last case: an exception leaves connect() (`.raised`) exactly in four
+PARTIAL only because of the last case: an exception leaves connect() (`.raised`) exactly in three
 situations, and nothing else can (after the repair of F30 a CommunicationError inside listen() is
-"no target this round"; every CommunicationError of every command `nfc.tag.activate` sends is absorbed):
+"no target this round"; every CommunicationError of every command `nfc.tag.activate` sends is absorbed
+and, after the repairs fixes/C18/0003 and 0004, no target makes `nfc.tag.activate` raise a TypeError):
 * SystemExit, and then the last event is the link loop `llc.run` answering SystemExit (F21, open);
 * TypeError, and then the rdwr on-startup returned a true value that is not iterable;
 * ValueError, and then an argument error: the rdwr option has a single target (whose own error is
   raised, as documented for sense()), an element that is not a RemoteTarget, or the card option has
-  a LocalTarget of unknown technology;
-* TypeError, and then the last event is the call of `nfc.tag.activate` with a target it cannot
-  handle (`TypeErrTarget`: found by `sense_dep`, i.e. the rdwr option was given an NFC-DEP target and
-  on-discover accepted it; or a Type A answer whose SENS_RES byte 1 claims Type 1 although byte 0
-  does not, so that no RID response exists) - open findings, nothing was sent to the target. -/
+  a LocalTarget of unknown technology. -/
 theorem connect_return_table_partial (o : Opts) (env : List Ans) (ts : List Bool) :
     ∃ q, mon (connect o env ts).2.log = some q ∧
       (match (connect o env ts).1 with
@@ -85,9 +82,7 @@ theorem connect_return_table_partial (o : Opts) (env : List Ans) (ts : List Bool
        | .caught e => isCaught e = true
        | .raised e =>
          (e = .type_ ∧ NonIterableStartup o) ∨ (e = .value ∧ OptsV o) ∨
-         (e = .systemExit ∧ (connect o env ts).2.log.getLast? = some (.call .llcRun .sysExit)) ∨
-         (e = .type_ ∧ ∃ f, TypeErrTarget f ∧
-           (connect o env ts).2.log.getLast? = some (.call .activate (.found f)))) := by
+         (e = .systemExit ∧ (connect o env ts).2.log.getLast? = some (.call .llcRun .sysExit))) := by
   obtain ⟨q, hq, h⟩ := connect_spec o env ts
   refine ⟨q, hq, ?_⟩
   cases hc : (connect o env ts).1 with
@@ -95,49 +90,44 @@ theorem connect_return_table_partial (o : Opts) (env : List Ans) (ts : List Bool
   | caught e => rw [hc] at h; exact h
   | raised e => exact connect_raised o env ts e hc
 
-/-- The full table: when the option record has no argument error, the link loop does not raise
-SystemExit during the run and `nfc.tag.activate` is not handed a target it cannot handle, connect()
-returns - None, False, the object or on-release's value. -/
+/-- The full table: when the option record has no argument error and the link loop does not raise
+SystemExit during the run, connect() returns - None, False, the object or on-release's value -
+whatever targets are discovered and whatever the tag activation commands are answered. -/
 theorem connect_return_table (o : Opts) (env : List Ans) (ts : List Bool)
     (h1 : ¬ NonIterableStartup o) (h2 : ¬ OptsV o)
-    (h3 : (connect o env ts).2.log.getLast? ≠ some (.call .llcRun .sysExit))
-    (h4 : ∀ f, TypeErrTarget f → (connect o env ts).2.log.getLast? ≠ some (.call .activate (.found f))) :
+    (h3 : (connect o env ts).2.log.getLast? ≠ some (.call .llcRun .sysExit)) :
     ∀ e, (connect o env ts).1 ≠ .raised e := by
   intro e he
-  rcases connect_raised o env ts e he with ⟨_, h⟩ | ⟨_, h⟩ | ⟨_, h⟩ | ⟨_, f, hf, h⟩
+  rcases connect_raised o env ts e he with ⟨_, h⟩ | ⟨_, h⟩ | ⟨_, h⟩
   · exact h1 h
   · exact h2 h
   · exact h3 h
-  · exact h4 f hf h
 
 /-! ## the activation step: `nfc.tag.activate` inside `_rdwr_connect` -/
 
 /-- `nfc.tag.activate(clf, target)` on the target `sense()` just returned (`HasT s`: the frontend
-holds a remote target), for EVERY target data `f` (technology, SENS_RES, SEL_RES, SDD_RES variant,
-RID) and EVERY script - whatever the commands of the type specific activation are answered
-(RATS / ATTRIB of a Type 4 Tag, AUTHENTICATE and GET_VERSION of the NXP Type 2 Tag detection, the
-nested `sense()` calls that re-select the tag; data, TimeoutError, TransmissionError, ProtocolError,
-BrokenLinkError at the first or at any later command):
+holds a remote target), for EVERY target data `f` (technology incl. a target found by `sense_dep`,
+SENS_RES, SEL_RES, SDD_RES variant, RID present or not) and EVERY script - whatever the commands of
+the type specific activation are answered (RATS / ATTRIB of a Type 4 Tag, AUTHENTICATE and
+GET_VERSION of the NXP Type 2 Tag detection, the nested `sense()` calls that re-select the tag; data,
+TimeoutError, TransmissionError, ProtocolError, BrokenLinkError at the first or at any later command):
 * the history grows by driver/collaborator calls only (no callback, no terminate poll);
 * no CommunicationError ever leaves it - a failed activation is "no tag", connect() tries again;
-* what leaves it is a device error (IOError, KeyboardInterrupt, or the UnsupportedTargetError of the
-  nested single-target `sense()`), all of which end connect() with False - or the TypeError for a
-  target it cannot handle, raised before anything was sent (the `act` event is the last one). -/
+* no interpreter-internal exception (TypeError, AttributeError, IndexError ...) leaves it: a target
+  it cannot operate is "no tag" (repairs fixes/C18/0003, 0004);
+* what leaves it is exactly a device error: IOError, KeyboardInterrupt, or the UnsupportedTargetError
+  of the nested single-target `sense()` - all of which end connect() with False. -/
 theorem activate_absorbs_communication_errors (f : Found) (s : St) (h : HasT s) :
     NExt s (tagActivate f s).2 ∧
     ∀ e, (tagActivate f s).1 = .error e →
-      isCommErr e = false ∧
-      (e = .io 5 ∨ e = .keyboardInterrupt ∨ e = .unsupportedTarget ∨
-        (e = .type_ ∧ TypeErrTarget f ∧ (tagActivate f s).2.log = s.log ++ [.call .activate (.found f)])) := by
+      isCommErr e = false ∧ e.internal = false ∧
+      (e = .io 5 ∨ e = .keyboardInterrupt ∨ e = .unsupportedTarget) := by
   obtain ⟨hn, he⟩ := tagActivate_act f s h
   refine ⟨hn, fun e h' => ?_⟩
-  rcases he e h' with hd | ⟨h1, h2, h3⟩
-  · rcases hd with hd | hd | hd <;> subst hd
-    · exact ⟨rfl, Or.inl rfl⟩
-    · exact ⟨rfl, Or.inr (Or.inl rfl)⟩
-    · exact ⟨rfl, Or.inr (Or.inr (Or.inl rfl))⟩
-  · subst h1
-    exact ⟨rfl, Or.inr (Or.inr (Or.inr ⟨rfl, h2, h3⟩))⟩
+  rcases he e h' with hd | hd | hd <;> subst hd
+  · exact ⟨rfl, rfl, Or.inl rfl⟩
+  · exact ⟨rfl, rfl, Or.inr (Or.inl rfl)⟩
+  · exact ⟨rfl, rfl, Or.inr (Or.inr rfl)⟩
 
 /-- the target `connect()` hands to `nfc.tag.activate` is the one the frontend holds: the commands
 of the activation go to the target this round's `sense()` returned, never to an earlier one -/
@@ -167,13 +157,25 @@ example : (tagActivate { sens := [0x44, 0x00], rid := [], p2p := false, atrLen :
     { env := [.commErr, .nothing, good', .protoErr], n := 3, log := [], target := .remote 2 }).1 = .ok none := by decide
 example : HasT { env := [], n := 3, log := [], target := .remote 2 } := ⟨2, rfl⟩
 
-/-- the full statement ("nfc.tag.activate never raises anything but a device error") is false on the
-current code: an NFC-DEP target given to the rdwr option and accepted by on-discover -/
+/-- `nfc.tag.activate` never raises TypeError (nor any other interpreter-internal exception), for
+every target and script: the positive form of the two repaired defects (an NFC-DEP target given to
+the rdwr option and accepted by on-discover; SENS_RES byte 1 = xCh without RID response). -/
+theorem activate_never_typeerror (f : Found) (s : St) (h : HasT s) :
+    (tagActivate f s).1 ≠ .error .type_ ∧ ∀ e, (tagActivate f s).1 = .error e → e.internal = false := by
+  obtain ⟨_, he⟩ := activate_absorbs_communication_errors f s h
+  refine ⟨?_, fun e h' => (he e h').2.1⟩
+  intro h'
+  have := (he _ h').2.1
+  cases this
+
 def rdwrDep : Opts :=
   ⟨some ⟨some (.proper, 0), [.dep 16, .b], .ret .true_, .ret .true_, .ret .true_, 1, true⟩, none, none⟩
-theorem activate_typeerror_counterexample :
-    (connect rdwrDep [.nothing, good'] [false, true]).1 = .raised .type_ := by decide
-example : TypeErrTarget { sens := [0x44, 0x00], rid := [], p2p := false, atrLen := 20, tech := 4 } := by decide
+/-- the former failing inputs: the DEP target is "no tag", discovery goes on and finds the Type 4B Tag -/
+example : (connect rdwrDep [.nothing, good'] [false, true]).1 = .ret .none := by decide
+example : (connect rdwrDep [.nothing, good', .nothing, .nothing, good', good'] [false, false, true]).1
+    = .ret (.val .rdwr .true_) := by decide
+example : (tagActivate { sens := [0x44, 0x0C], rid := [], p2p := false, atrLen := 0, tech := 1 }
+    { env := [], n := 2, log := [], target := .remote 1 }).1 = .ok none := by decide
 
 /-- the full statement ("connect() never raises") is false on the current code -/
 def ConnectNeverRaises : Prop := ∀ o env ts e, (connect o env ts).1 ≠ .raised e
